@@ -272,8 +272,9 @@ func vfFamBCheckC06(d *vfFamBODesc, who string) []vfFamBFinding {
 		}
 		mid := s.Mids[0]
 		if j, dup := seen[mid]; dup {
+			// keyed by the later section (the one whose mid was allocated last)
 			cls := "C06/dup-mid/media-section"
-			if s.Media == "application" || d.Sections[j].Media == "application" {
+			if s.Media == "application" {
 				cls = "C06/dup-mid/data-section"
 			}
 			add(cls, "m-sections #%d (%s) and #%d (%s) share mid %q; mids=%q groups=%q", j, d.Sections[j].Media, s.Index, s.Media, mid, d.MidList(), d.Groups)
@@ -1475,4 +1476,651 @@ func vfFamBRemoteTwice(d *vfFamBODesc) map[string]bool {
 		}
 	}
 	return out
+}
+
+// vfFamBRound is one completed (or failed) offer/answer exchange between two PeerConnections
+// living in this process. Descriptions are handed over as text without candidate lines, so no
+// ICE connection is ever established (nothing in family B needs one).
+type vfFamBRound struct {
+	Offer, Answer string // as returned by CreateOffer / CreateAnswer
+	OfferSeen     string // what the answerer was given (after munging)
+	Stage         string // "" = completed, else the call that failed
+	Err           error
+}
+
+// vfFamBExchange runs offerer.CreateOffer -> SetLocal -> answerer.SetRemote -> CreateAnswer ->
+// SetLocal -> offerer.SetRemote. munge (optional) edits the offer text the answerer sees.
+// onDesc (optional) is called right after each Create* call, before anything else happens.
+func vfFamBExchange(offerer, answerer *PeerConnection, munge func(string) string, onDesc func(kind string, text string)) vfFamBRound {
+	var r vfFamBRound
+	off, err := offerer.CreateOffer(nil)
+	if err != nil {
+		r.Stage, r.Err = "create-offer", err
+		return r
+	}
+	r.Offer = off.SDP
+	if onDesc != nil {
+		onDesc("offer", off.SDP)
+	}
+	if err = offerer.SetLocalDescription(off); err != nil {
+		r.Stage, r.Err = "set-local-offer", err
+		return r
+	}
+	seen := vfFamBStripCandidates(off.SDP)
+	if munge != nil {
+		seen = munge(seen)
+	}
+	r.OfferSeen = seen
+	if err = answerer.SetRemoteDescription(SessionDescription{Type: SDPTypeOffer, SDP: seen}); err != nil {
+		r.Stage, r.Err = "set-remote-offer", err
+		return r
+	}
+	ans, err := answerer.CreateAnswer(nil)
+	if err != nil {
+		r.Stage, r.Err = "create-answer", err
+		return r
+	}
+	r.Answer = ans.SDP
+	if onDesc != nil {
+		onDesc("answer", ans.SDP)
+	}
+	if err = answerer.SetLocalDescription(ans); err != nil {
+		r.Stage, r.Err = "set-local-answer", err
+		return r
+	}
+	if err = offerer.SetRemoteDescription(SessionDescription{Type: SDPTypeAnswer, SDP: vfFamBStripCandidates(ans.SDP)}); err != nil {
+		r.Stage, r.Err = "set-remote-answer", err
+		return r
+	}
+	return r
+}
+
+// ---------------------------------------------------------------------------------------
+// foreign-peer histories: one pion PeerConnection against a scripted remote endpoint whose
+// descriptions come from the G-sdp writer (used by C06 and C08)
+
+type vfFamBFStep struct {
+	Op   string      `json:"op"` // remoteOffer | localOffer | addTrack | addKind | removeTrack | stop | dc
+	Kind string      `json:"kind,omitempty"`
+	Dir  string      `json:"dir,omitempty"`
+	A    int         `json:"a,omitempty"`
+	Add  []vfFamBSec `json:"add,omitempty"`  // remoteOffer: m-sections the remote appends
+	Dirs []string    `json:"dirs,omitempty"` // remoteOffer: direction per existing section, by index ("=" keep, "-" absent)
+}
+
+type vfFamBFCase struct {
+	ME        vfFamBMECfg   `json:"me"`
+	DefaultME bool          `json:"default_me,omitempty"`
+	Sem       int           `json:"sem"`
+	MediaFP   bool          `json:"media_fp,omitempty"`
+	AlwaysDC  bool          `json:"always_dc,omitempty"`
+	Initial   vfFamBSDP     `json:"initial"`
+	Steps     []vfFamBFStep `json:"steps"`
+}
+
+type vfFamBFEvent struct {
+	Kind          string // offer | answer (generated by the pion side)
+	Text          string
+	RemoteOffer   string // for answers: the offer text that was applied
+	PrevRemote    string // for answers: the previous remote offer text ("" in the first round)
+	Step          int
+	OddMidSeen    bool // a remote description with a non-numeric or sparse mid has been applied
+	LocalAddAfter bool // ... and a local addition succeeded after that
+}
+
+func vfFamBMidsOdd(mids []string) bool {
+	for i, m := range mids {
+		if m != strconv.Itoa(i) {
+			return true
+		}
+	}
+	return false
+}
+
+// vfFamBSoundAppend appends sec to the remote description, keeping it sound: a fresh mid, no
+// payload type meaning two codecs, no extmap id meaning two URIs (conflicting entries are
+// dropped from the new section). Returns false when nothing usable is left.
+func vfFamBSoundAppend(remote *vfFamBSDP, sec vfFamBSec) bool {
+	mids := map[string]bool{}
+	ptCodec := map[int]string{}
+	idURI, uriID := map[int]string{}, map[string]int{}
+	haveApp := false
+	key := func(c vfFamBCodec) string {
+		k := fmt.Sprintf("%s/%d/%d/%s", strings.ToLower(c.Name), c.Clock, c.Ch, c.Fmtp)
+		return k
+	}
+	for _, s := range remote.Sections {
+		mids[s.Mid] = true
+		if s.Media == "application" {
+			haveApp = true
+		}
+		for _, c := range s.Codecs {
+			ptCodec[c.PT] = s.Media + "/" + key(c)
+		}
+		for _, e := range s.Exts {
+			idURI[e.ID] = e.URI
+			uriID[e.URI] = e.ID
+		}
+	}
+	if sec.Media == "application" && haveApp {
+		return false
+	}
+	for mids[sec.Mid] || sec.Mid == "" {
+		sec.Mid += "x"
+	}
+	var codecs []vfFamBCodec
+	kept := map[int]bool{}
+	for _, c := range sec.Codecs {
+		if prev, ok := ptCodec[c.PT]; ok && prev != sec.Media+"/"+key(c) {
+			continue
+		}
+		codecs = append(codecs, c)
+		kept[c.PT] = true
+	}
+	// an rtx whose primary was dropped goes too
+	var codecs2 []vfFamBCodec
+	for _, c := range codecs {
+		if strings.EqualFold(c.Name, "rtx") {
+			apt, _ := strconv.Atoi(strings.TrimPrefix(c.Fmtp, "apt="))
+			if !kept[apt] {
+				continue
+			}
+		}
+		codecs2 = append(codecs2, c)
+	}
+	if (sec.Media == "audio" || sec.Media == "video") && len(codecs2) == 0 {
+		return false
+	}
+	sec.Codecs = codecs2
+	var exts []vfFamBExt
+	for _, e := range sec.Exts {
+		if u, ok := idURI[e.ID]; ok && u != e.URI {
+			continue
+		}
+		if id, ok := uriID[e.URI]; ok && id != e.ID {
+			continue
+		}
+		exts = append(exts, e)
+	}
+	sec.Exts = exts
+	remote.Sections = append(remote.Sections, sec)
+	return true
+}
+
+// vfFamBMirrorSection turns an m-section pion offered into what the scripted remote answers
+// (and from then on carries in its own descriptions).
+func vfFamBMirrorSection(o *vfFamBOSec) vfFamBSec {
+	sec := vfFamBSec{Media: o.Media, Mid: o.Mid(), Port: 9, Setup: "active"}
+	switch o.Dir() {
+	case "sendrecv":
+		sec.Dir = "sendrecv"
+	case "sendonly":
+		sec.Dir = "recvonly"
+	case "recvonly":
+		sec.Dir = "sendonly"
+	default:
+		sec.Dir = "inactive"
+	}
+	if o.Port == 0 {
+		sec.Port = 0
+	}
+	if o.Media == "application" {
+		sec.Dir = ""
+		return sec
+	}
+	fm, fb := map[string]string{}, map[string][]string{}
+	for _, f := range o.Fmtps {
+		fm[f.PT] = f.Val
+	}
+	for _, f := range o.Fbs {
+		fb[f.PT] = append(fb[f.PT], f.Val)
+	}
+	for _, rm := range o.Rtpmaps {
+		pt, err := strconv.Atoi(rm.PT)
+		if err != nil {
+			continue
+		}
+		parts := strings.Split(rm.Val, "/")
+		c := vfFamBCodec{PT: pt, Name: parts[0], Fmtp: fm[rm.PT], FB: fb[rm.PT]}
+		if len(parts) > 1 {
+			c.Clock, _ = strconv.Atoi(parts[1])
+		}
+		if len(parts) > 2 {
+			c.Ch, _ = strconv.Atoi(parts[2])
+		}
+		sec.Codecs = append(sec.Codecs, c)
+	}
+	for _, e := range o.Extmaps {
+		sec.Exts = append(sec.Exts, vfFamBExt{ID: e.ID, URI: e.URI})
+	}
+	if sec.Dir == "sendrecv" || sec.Dir == "sendonly" {
+		sec.SSRC = uint32(5000 + o.Index)
+	}
+	return sec
+}
+
+// vfFamBRunForeign executes the history; onDesc sees every description the pion side generates.
+func vfFamBRunForeign(v *vfT, c vfFamBFCase, onDesc func(ev vfFamBFEvent)) {
+	pc, err := vfFamBNewPC(vfFamBPCOpts{ME: c.ME, DefaultME: c.DefaultME, Semantics: vfFamBSemantics[c.Sem%len(vfFamBSemantics)], MediaFP: c.MediaFP, AlwaysDC: c.AlwaysDC})
+	if err != nil {
+		v.Skip("NewPeerConnection: " + err.Error())
+	}
+	defer func() { _ = pc.Close() }()
+	remote := c.Initial
+	remote.Sections = append([]vfFamBSec{}, c.Initial.Sections...)
+	remote.SessVer = 2
+	started := false // the remote has sent its first offer
+	prevRemote := ""
+	odd, addAfter := false, false
+	trackN := 0
+
+	remoteOffer := func(step int, st *vfFamBFStep) {
+		if pc.SignalingState() != SignalingStateStable {
+			v.Label("skip:not-stable")
+			return
+		}
+		if started && st != nil {
+			for i := range remote.Sections {
+				if i < len(st.Dirs) && remote.Sections[i].Media != "application" && remote.Sections[i].Media != "message" {
+					switch d := st.Dirs[i]; d {
+					case "=", "":
+					case "-":
+						remote.Sections[i].Dir = ""
+					default:
+						remote.Sections[i].Dir = d
+					}
+				}
+			}
+			for _, sec := range st.Add {
+				if vfFamBSoundAppend(&remote, sec) {
+					v.Label("remote:adds-section")
+				}
+			}
+		}
+		started = true
+		remote.SessVer++
+		text := remote.Render()
+		if err := pc.SetRemoteDescription(SessionDescription{Type: SDPTypeOffer, SDP: text}); err != nil {
+			v.Label("set-remote-offer-error")
+			v.Logf("step %d SetRemoteDescription(offer): %v", step, err)
+			return
+		}
+		var mids []string
+		for _, s := range remote.Sections {
+			mids = append(mids, s.Mid)
+		}
+		if vfFamBMidsOdd(mids) {
+			odd = true
+		}
+		ans, err := pc.CreateAnswer(nil)
+		if err != nil {
+			v.Label("create-answer-error")
+			v.Logf("step %d CreateAnswer: %v", step, err)
+			return
+		}
+		v.Label("answer-generated")
+		onDesc(vfFamBFEvent{Kind: "answer", Text: ans.SDP, RemoteOffer: text, PrevRemote: prevRemote, Step: step, OddMidSeen: odd, LocalAddAfter: addAfter})
+		prevRemote = text
+		if err := pc.SetLocalDescription(ans); err != nil {
+			v.Label("set-local-answer-error")
+			v.Logf("step %d SetLocalDescription(answer): %v", step, err)
+		}
+	}
+
+	remoteOffer(-1, nil)
+	for i := range c.Steps {
+		st := &c.Steps[i]
+		var err error
+		switch st.Op {
+		case "remoteOffer":
+			remoteOffer(i, st)
+		case "localOffer":
+			if pc.SignalingState() != SignalingStateStable {
+				v.Label("skip:not-stable")
+				continue
+			}
+			off, e := pc.CreateOffer(nil)
+			if e != nil {
+				v.Label("create-offer-error")
+				v.Logf("step %d CreateOffer: %v", i, e)
+				continue
+			}
+			v.Label("offer-generated")
+			onDesc(vfFamBFEvent{Kind: "offer", Text: off.SDP, Step: i, OddMidSeen: odd, LocalAddAfter: addAfter})
+			if e := pc.SetLocalDescription(off); e != nil {
+				v.Label("set-local-offer-error")
+				continue
+			}
+			od, e := vfFamBParse(off.SDP)
+			if e != nil {
+				continue // the monitor has reported it if it matters to its property
+			}
+			// the remote answers by mirroring; sections it did not know are added to its own state
+			ans := remote
+			ans.Sections = nil
+			known := map[string]int{}
+			for k, s := range remote.Sections {
+				known[s.Mid] = k
+			}
+			usable := true
+			for _, o := range od.Sections {
+				if o.Mid() == "" {
+					usable = false // cannot be answered by mid (C06's finding); stop the exchange here
+					break
+				}
+				m := vfFamBMirrorSection(o)
+				if k, ok := known[o.Mid()]; ok && remote.Sections[k].Media == o.Media {
+					// keep the remote's own view of a section it already has, only the direction follows the offer
+					m2 := remote.Sections[k]
+					m2.Setup = "active"
+					if o.Media != "application" {
+						m2.Dir = m.Dir
+					}
+					m = m2
+				}
+				ans.Sections = append(ans.Sections, m)
+			}
+			if !usable {
+				v.Label("local-offer-unanswerable(section without mid)")
+				continue
+			}
+			ans.SessVer++
+			if e := pc.SetRemoteDescription(SessionDescription{Type: SDPTypeAnswer, SDP: ans.Render()}); e != nil {
+				v.Label("set-remote-answer-error")
+				v.Logf("step %d SetRemoteDescription(answer): %v", i, e)
+				continue
+			}
+			v.Label("local-offer-round-ok")
+			// the remote now carries these sections (as offers: actpass)
+			remote.Sections = nil
+			for _, m := range ans.Sections {
+				m.Setup = "actpass"
+				remote.Sections = append(remote.Sections, m)
+			}
+			remote.SessVer = ans.SessVer
+		case "addTrack":
+			trackN++
+			var tl TrackLocal
+			if tl, err = vfFamBTrack(c.ME, c.DefaultME, st.Kind, fmt.Sprintf("lt%d", trackN), "ls", ""); err == nil {
+				_, err = pc.AddTrack(tl)
+			}
+			if err == nil && odd {
+				addAfter = true
+			}
+		case "addKind":
+			_, err = pc.AddTransceiverFromKind(vfFamBKind(st.Kind), RTPTransceiverInit{Direction: NewRTPTransceiverDirection(st.Dir)})
+			if err == nil && odd {
+				addAfter = true
+			}
+		case "dc":
+			_, err = pc.CreateDataChannel(fmt.Sprintf("dc%d", i), nil)
+			if err == nil && odd {
+				addAfter = true
+			}
+		case "removeTrack":
+			if s := pc.GetSenders(); len(s) > 0 {
+				err = pc.RemoveTrack(s[st.A%len(s)])
+			}
+		case "stop":
+			if t := pc.GetTransceivers(); len(t) > 0 {
+				err = t[st.A%len(t)].Stop()
+			}
+		}
+		if err != nil {
+			v.Label("op-error:" + st.Op)
+			v.Logf("step %d %s: %v", i, st.Op, err)
+		}
+	}
+}
+
+// vfFamBGenForeign draws a foreign-peer history. dirFocus: remote re-offers mostly flip
+// directions (C08); otherwise they mostly add sections and the local side adds things (C06).
+func vfFamBGenForeign(r *rapid.T, dirFocus bool) vfFamBFCase {
+	var c vfFamBFCase
+	if rapid.IntRange(0, 2).Draw(r, "defaultME") == 0 {
+		c.DefaultME = true
+	} else {
+		c.ME = vfFamBGenME(r, vfFamBMEGenOpts{NeedAudio: true, NeedVideo: rapid.IntRange(0, 4).Draw(r, "needVideo") != 0, Remap: true, Exts: true})
+	}
+	c.Sem = rapid.IntRange(0, 1).Draw(r, "sem")
+	c.MediaFP = rapid.Bool().Draw(r, "mediaFP")
+	c.AlwaysDC = rapid.IntRange(0, 5).Draw(r, "alwaysDC") == 0
+	styles := []string{"numeric", "sparse", "token", "mixed", "zeropad"}
+	medias := []string{"audio", "audio", "video", "video", "application"}
+	if dirFocus {
+		styles = []string{"numeric", "numeric", "token", "sparse"}
+		medias = []string{"audio", "audio", "video", "video", "video", "application"}
+	}
+	nInit := rapid.IntRange(1, 3).Draw(r, "nInitial")
+	nLater := rapid.IntRange(0, 3).Draw(r, "nLater")
+	all := vfFamBGenSDP(r, vfFamBGenOpts{MinSec: nInit + nLater, MaxSec: nInit + nLater, Medias: medias, MidStyles: styles,
+		NoPlanBMids: c.Sem == 1, RemapPT: true, RemapExt: true, Unsupported: 10, SSRC: true, AbsentDir: false})
+	c.Initial = all
+	c.Initial.Sections = append([]vfFamBSec{}, all.Sections[:nInit]...)
+	later := all.Sections[nInit:]
+	n := rapid.IntRange(2, 8).Draw(r, "nSteps")
+	ops := []string{"remoteOffer", "localOffer", "localOffer", "addTrack", "addKind", "dc", "dc", "removeTrack", "stop"}
+	if dirFocus {
+		ops = []string{"remoteOffer", "remoteOffer", "remoteOffer", "addTrack", "addKind", "removeTrack", "localOffer"}
+	}
+	for i := 0; i < n; i++ {
+		st := vfFamBFStep{Op: rapid.SampledFrom(ops).Draw(r, "op")}
+		switch st.Op {
+		case "remoteOffer":
+			if len(later) > 0 && rapid.IntRange(0, 1).Draw(r, "remoteAdds") == 0 {
+				st.Add = []vfFamBSec{later[0]}
+				later = later[1:]
+			}
+			nd := rapid.IntRange(0, 6).Draw(r, "nDirs")
+			for k := 0; k < nd; k++ {
+				if dirFocus || rapid.IntRange(0, 2).Draw(r, "flip") == 0 {
+					st.Dirs = append(st.Dirs, rapid.SampledFrom([]string{"sendrecv", "sendonly", "recvonly", "inactive", "=", "="}).Draw(r, "newDir"))
+				} else {
+					st.Dirs = append(st.Dirs, "=")
+				}
+			}
+		case "addTrack":
+			st.Kind = rapid.SampledFrom([]string{"audio", "video"}).Draw(r, "kind")
+		case "addKind":
+			st.Kind = rapid.SampledFrom([]string{"audio", "video"}).Draw(r, "kind")
+			st.Dir = rapid.SampledFrom([]string{"sendrecv", "sendonly", "recvonly"}).Draw(r, "dir")
+		case "removeTrack", "stop":
+			st.A = rapid.IntRange(0, 5).Draw(r, "a")
+		}
+		c.Steps = append(c.Steps, st)
+	}
+	return c
+}
+
+// ---------------------------------------------------------------------------------------
+// pion-pair histories: two PeerConnections exchanging descriptions in-process (C06, C09, C10)
+
+type vfFamBPOp struct {
+	Op   string `json:"op"`   // negotiate | addTrack | addKind | removeTrack | stop | dc
+	Peer int    `json:"peer"` // who acts; for negotiate: who offers
+	Kind string `json:"kind,omitempty"`
+	Dir  string `json:"dir,omitempty"`
+	A    int    `json:"a,omitempty"`
+}
+
+type vfFamBPSide struct {
+	ME        vfFamBMECfg `json:"me"`
+	DefaultME bool        `json:"default_me,omitempty"`
+	Sem       int         `json:"sem"`
+	MediaFP   bool        `json:"media_fp,omitempty"`
+	AlwaysDC  bool        `json:"always_dc,omitempty"`
+}
+
+type vfFamBPCase struct {
+	Sides [2]vfFamBPSide `json:"sides"`
+	Ops   []vfFamBPOp    `json:"ops"`
+}
+
+type vfFamBPEvent struct {
+	Peer      int    // who generated the description
+	Kind      string // offer | answer
+	Text      string
+	OfferSeen string // for answers: the offer text the answerer applied
+	Round     int    // number of negotiate ops started so far (1-based)
+	Step      int
+}
+
+type vfFamBPStats struct {
+	Rounds        int // completed rounds
+	Offered       [2]bool
+	AddAfterRound bool // a successful addition (track, transceiver, data channel) after the first completed round
+}
+
+// vfFamBRunPair executes the history. onDesc sees every generated description; onStep runs
+// after every operation (and once before the first) with both connections; munge (optional)
+// rewrites the offer text on its way to the answerer.
+func vfFamBRunPair(v *vfT, c vfFamBPCase, onDesc func(ev vfFamBPEvent), onStep func(step int, pcs [2]*PeerConnection), munge func(round int, offer string) string) vfFamBPStats {
+	var pcs [2]*PeerConnection
+	var st vfFamBPStats
+	for i := 0; i < 2; i++ {
+		s := c.Sides[i]
+		pc, err := vfFamBNewPC(vfFamBPCOpts{ME: s.ME, DefaultME: s.DefaultME, Semantics: vfFamBSemantics[s.Sem%len(vfFamBSemantics)], MediaFP: s.MediaFP, AlwaysDC: s.AlwaysDC})
+		if err != nil {
+			if pcs[0] != nil {
+				_ = pcs[0].Close()
+			}
+			v.Skip("NewPeerConnection: " + err.Error())
+		}
+		pcs[i] = pc
+	}
+	defer func() {
+		_ = pcs[0].Close()
+		_ = pcs[1].Close()
+	}()
+	if onStep != nil {
+		onStep(-1, pcs)
+	}
+	trackN := 0
+	round := 0
+	for i, op := range c.Ops {
+		p := op.Peer & 1
+		pc := pcs[p]
+		side := c.Sides[p]
+		var err error
+		added := false
+		switch op.Op {
+		case "negotiate":
+			if pcs[0].SignalingState() != SignalingStateStable || pcs[1].SignalingState() != SignalingStateStable {
+				v.Label("skip:not-stable")
+				break
+			}
+			round++
+			var offerSeen string
+			rd := round
+			r := vfFamBExchange(pcs[p], pcs[1-p], func(s string) string {
+				if munge != nil {
+					s = munge(rd, s)
+				}
+				offerSeen = s
+				return s
+			}, func(kind, text string) {
+				ev := vfFamBPEvent{Peer: p, Kind: kind, Text: text, Round: round, Step: i}
+				if kind == "answer" {
+					ev.Peer = 1 - p
+					ev.OfferSeen = offerSeen
+				}
+				onDesc(ev)
+			})
+			if r.Stage != "" {
+				v.Label("round-failed:" + r.Stage)
+				v.Logf("step %d negotiate(offerer %d): %s: %v", i, p, r.Stage, r.Err)
+				if onStep != nil {
+					onStep(i, pcs)
+				}
+				return st // a half-applied exchange leaves the pair in a state no caller would continue from
+			}
+			st.Rounds++
+			st.Offered[p] = true
+			v.Label("round-ok")
+		case "addTrack":
+			trackN++
+			var tl TrackLocal
+			if tl, err = vfFamBTrack(side.ME, side.DefaultME, op.Kind, fmt.Sprintf("pt%d", trackN), "ps", ""); err == nil {
+				_, err = pc.AddTrack(tl)
+			}
+			added = err == nil
+		case "addKind":
+			_, err = pc.AddTransceiverFromKind(vfFamBKind(op.Kind), RTPTransceiverInit{Direction: NewRTPTransceiverDirection(op.Dir)})
+			added = err == nil
+		case "dc":
+			_, err = pc.CreateDataChannel(fmt.Sprintf("dc%d", i), nil)
+			added = err == nil
+		case "removeTrack":
+			if s := pc.GetSenders(); len(s) > 0 {
+				err = pc.RemoveTrack(s[op.A%len(s)])
+			}
+		case "stop":
+			if t := pc.GetTransceivers(); len(t) > 0 {
+				err = t[op.A%len(t)].Stop()
+			}
+		}
+		if added && st.Rounds >= 1 {
+			st.AddAfterRound = true
+		}
+		if err != nil {
+			v.Label("op-error:" + op.Op)
+			v.Logf("step %d %s(peer %d): %v", i, op.Op, p, err)
+		}
+		if onStep != nil {
+			onStep(i, pcs)
+		}
+	}
+	return st
+}
+
+// vfFamBGenPair draws a pair history with minRounds..maxRounds negotiate ops spread over it.
+func vfFamBGenPair(r *rapid.T, minRounds, maxRounds int, customME bool) vfFamBPCase {
+	var c vfFamBPCase
+	for i := 0; i < 2; i++ {
+		s := vfFamBPSide{Sem: rapid.IntRange(0, 1).Draw(r, "sem"), MediaFP: rapid.Bool().Draw(r, "mediaFP"), AlwaysDC: rapid.IntRange(0, 5).Draw(r, "alwaysDC") == 0}
+		if customME && rapid.IntRange(0, 1).Draw(r, "customME") == 0 {
+			s.ME = vfFamBGenME(r, vfFamBMEGenOpts{NeedAudio: true, NeedVideo: true, Remap: true, Exts: true, FEC: true})
+		} else {
+			s.DefaultME = true
+		}
+		c.Sides[i] = s
+	}
+	rounds := rapid.IntRange(minRounds, maxRounds).Draw(r, "rounds")
+	offerer := rapid.IntRange(0, 1).Draw(r, "firstOfferer")
+	// something to negotiate first
+	pre := rapid.IntRange(1, 3).Draw(r, "preOps")
+	genLocal := func() vfFamBPOp {
+		op := vfFamBPOp{Op: rapid.SampledFrom([]string{"addTrack", "addTrack", "addKind", "addKind", "dc", "removeTrack", "stop"}).Draw(r, "op"), Peer: rapid.IntRange(0, 1).Draw(r, "peer")}
+		switch op.Op {
+		case "addTrack":
+			op.Kind = rapid.SampledFrom([]string{"audio", "video"}).Draw(r, "kind")
+		case "addKind":
+			op.Kind = rapid.SampledFrom([]string{"audio", "video"}).Draw(r, "kind")
+			op.Dir = rapid.SampledFrom([]string{"sendrecv", "sendonly", "recvonly"}).Draw(r, "dir")
+		case "removeTrack", "stop":
+			op.A = rapid.IntRange(0, 5).Draw(r, "a")
+		}
+		return op
+	}
+	for i := 0; i < pre; i++ {
+		op := genLocal()
+		if i == 0 {
+			op.Peer = offerer // the first offer must not be empty
+			if op.Op == "removeTrack" || op.Op == "stop" {
+				op.Op, op.Kind = "addTrack", "audio"
+			}
+		}
+		c.Ops = append(c.Ops, op)
+	}
+	for k := 0; k < rounds; k++ {
+		c.Ops = append(c.Ops, vfFamBPOp{Op: "negotiate", Peer: offerer})
+		if rapid.IntRange(0, 3).Draw(r, "sameOffererAgain") != 0 {
+			offerer = 1 - offerer
+		}
+		n := rapid.IntRange(0, 2).Draw(r, "between")
+		for j := 0; j < n; j++ {
+			c.Ops = append(c.Ops, genLocal())
+		}
+	}
+	return c
 }
